@@ -142,3 +142,113 @@ def o_c09(rec, world, hist):
 GEN = {"C03": gen_c03, "C05": gen_c05, "C09": gen_c09}
 ORACLES = {"C03": o_c03, "C05": o_c05, "C09": o_c09}
 EXEC = {}
+
+
+# ---- C14 -------------------------------------------------------------------
+def gen_c14(seed, tier):
+    desc, rng = gen_history(seed, tier, n_ops=(0, 5))
+    desc["ops"][-1]["cfg"]["max_errors"] = 0
+    desc["ops"][-1]["cfg"]["retry"] = None
+    return desc
+
+
+def _state(hist):
+    return (hist.disk.snapshot(), hist.fresh, dict(hist.src_version))
+
+
+def _restore(hist, st):
+    hist.disk.restore(st[0])
+    hist.fresh = st[1]
+    hist.src_version = dict(st[2])
+
+
+def _activity(rec):
+    calls, reads, writes, sides = {}, {}, {}, {}
+    for ev in rec.events:
+        k = ev[3]
+        if k == "call-start":
+            calls[ev[4]] = calls.get(ev[4], 0) + 1
+        elif k == "store-start" and ev[4] == "read":
+            reads[ev[5]] = reads.get(ev[5], 0) + 1
+        elif k == "store-effect":
+            writes[ev[5]] = writes.get(ev[5], 0) + 1
+        elif k == "side-write":
+            sides[ev[4]] = sides.get(ev[4], 0) + 1
+    return dict(calls=calls, reads=reads, writes=writes, side_writes=sides)
+
+
+def exec_c14(prop, desc):
+    import uberjob
+    from model.core import canon, typed_equal
+
+    world = desc["world"]
+    hist = machine.History(desc)
+    hist.init_sources()
+    tapes = desc.get("tapes") or {}
+    viol = []
+    last = len(desc["ops"]) - 1
+    for idx, op in enumerate(desc["ops"][:-1]):
+        machine.apply_op(hist, op, idx, tape=tapes.get(str(idx)))
+    op = desc["ops"][-1]
+    st0 = _state(hist)
+    # (1) the dry run
+    dop = copy.deepcopy(op)
+    dop["cfg"]["dry_run"] = True
+    rec_d = machine.run_op(hist, dop, last, tape=tapes.get(str(last)))
+    touched = [ev for ev in rec_d.events if ev[3] in ("call-start", "side-write", "store-effect")
+               or (ev[3] == "store-start" and ev[4] != "mtime")]
+    if touched:
+        viol.append(O.V("dry-run-touched", f"dry run executed or accessed: {[e[3:6] for e in touched[:4]]}"))
+    elif hist.disk.snapshot()[0] != st0[0][0]:
+        viol.append(O.V("dry-run-touched", "store contents changed during a dry run"))
+    elif rec_d.exc is None:
+        if not (isinstance(rec_d.result, tuple) and len(rec_d.result) == 2):
+            viol.append(O.V("dry-run-result", f"dry run returned {type(rec_d.result).__name__}, not (plan, node)"))
+    viol.extend(O.o_unmodified(rec_d, world, hist))
+    if not viol and rec_d.exc is None:
+        phys, out_node = rec_d.result
+        # (2) the corresponding real run from the same store state
+        _restore(hist, st0)
+        rec_r = machine.run_op(hist, copy.deepcopy(op), last + 1)
+        end_r = {k: v[0] for k, v in hist.disk.data.items()}
+        # (3) the returned physical plan alone, no registry
+        _restore(hist, st0)
+        nodes_list = list(phys.graph.nodes())
+
+        def runner(built, kwargs):
+            kw = {k: v for k, v in kwargs.items() if k in ("max_workers", "scheduler", "max_errors", "progress")}
+            return uberjob.run(phys, output=nodes_list, **kw)
+
+        pop = copy.deepcopy(op)
+        pop["cfg"]["capture_physical"] = False
+        rec_p = machine.run_op(hist, pop, last + 2, built=rec_d.built, runner=runner)
+        end_p = {k: v[0] for k, v in hist.disk.data.items()}
+        if (rec_r.exc is None) != (rec_p.exc is None):
+            viol.append(O.V("dry-plan-outcome", f"real run: {rec_r.exc!r}; executing the returned physical plan: {rec_p.exc!r}"))
+        elif rec_r.exc is None:
+            a, b = _activity(rec_r), _activity(rec_p)
+            if a != b:
+                diff = {k: (a[k], b[k]) for k in a if a[k] != b[k]}
+                viol.append(O.V("dry-plan-activity", f"real run vs returned physical plan differ in (real, plan): {diff}"))
+            else:
+                wants = op["cfg"].get("output", True) and world.get("output") is not None
+                if wants:
+                    if out_node is None:
+                        viol.append(O.V("dry-plan-output", "an output was requested but the dry run returned no output node"))
+                    else:
+                        got = rec_p.result[nodes_list.index(out_node)]
+                        # (two separately built plans: opaque arguments are distinct objects, compare canonically)
+                        if canon(got) != canon(rec_r.result):
+                            viol.append(O.V("dry-plan-output", f"physical plan's output node yields {canon(got)[:200]}, "
+                                                               f"the real run returned {canon(rec_r.result)[:200]}"))
+                if not viol and set(end_r) == set(end_p):
+                    bad = [k for k in end_r if canon(end_r[k]) != canon(end_p[k])]
+                    if bad:
+                        viol.append(O.V("dry-plan-endstate", f"stores {bad} differ between the real run and the physical plan"))
+                elif not viol:
+                    viol.append(O.V("dry-plan-endstate", f"store sets differ: {sorted(end_r)} vs {sorted(end_p)}"))
+    return result(desc, hist, viol)
+
+
+GEN["C14"] = gen_c14
+EXEC["C14"] = exec_c14
